@@ -78,16 +78,17 @@ def tree_data(with_names=True, drop=None, flat=False, hmap=False,
         d['class']['cls/B'] = d['class'].pop('clsB')
         nm['class']['cls/B'] = nm['class'].pop('clsB')
     if childless:
-        # an inner node without children (the validator accepts it)
+        # inner nodes without children (the validator accepts them); with
+        # a count, that many of them (index types of the HDF5 output)
         d['class']['clsZ'] = []
         nm['class']['clsZ'] = {'name': 'class without subclasses'}
-    if shared_label:
-        # the label 'c2' is used at two levels (subclass and cluster)
-        # with different display names
-        d['class']['clsB'] = ['c2', 'subC']
-        d['subclass']['c2'] = d['subclass'].pop('subB')
-        nm['subclass']['c2'] = {'name': 'Sub B (shares its label)'}
-        nm['subclass'].pop('subB')
+        extra = {f'a_childless_{i:03d}': [] for i in
+                 range(int(childless) - 1 if childless is not True else 0)}
+        if extra:
+            # listed before the classes that have cells (node indexes of
+            # the HDF5 output follow this order)
+            extra.update(d['class'])
+            d['class'] = extra
     if with_names:
         d['name_mapper'] = nm
     if hmap:
@@ -120,7 +121,8 @@ def write_stats(path, tree):
             f.create_dataset(k, data=(prof > 1).astype(int) * n)
 
 
-def write_query(path, enc='dense', raw=True, cells=None, genes=None):
+def write_query(path, enc='dense', raw=True, cells=None, genes=None,
+                dtype=None):
     import anndata
     import pandas as pd
     import scipy.sparse as sp
@@ -137,6 +139,8 @@ def write_query(path, enc='dense', raw=True, cells=None, genes=None):
     X = np.array(rows)
     if not raw:
         X = np.array([np.log2(1.0 + 1.0e6 * r / r.sum()) for r in X])
+    if dtype is not None:
+        X = X.astype(dtype)
     if enc == 'csr':
         X = sp.csr_matrix(X)
     elif enc == 'csc':
@@ -175,12 +179,13 @@ class Inputs:
         json.dump(mk, open(self.markers, 'w'))
         self.queries = {}
 
-    def query(self, enc='dense', raw=True):
-        k = (enc, raw)
+    def query(self, enc='dense', raw=True, dtype=None):
+        k = (enc, raw, dtype)
         if k not in self.queries:
             p = os.path.join(self.dir,
-                             f"query_{enc}_{'raw' if raw else 'norm'}.h5ad")
-            write_query(p, enc, raw)
+                             f"query_{enc}_{'raw' if raw else 'norm'}"
+                             f"{'_' + dtype if dtype else ''}.h5ad")
+            write_query(p, enc, raw, dtype=dtype)
             self.queries[k] = p
         return self.queries[k]
 
@@ -220,7 +225,8 @@ def make_config(inp, work, **kw):
         tmp_dir=work['scratch'],
         summary_metadata_path=None,
         query_path=inp.query(kw.pop('enc', 'dense'),
-                             ta['normalization'] == 'raw'),
+                             ta['normalization'] == 'raw',
+                             kw.pop('query_dtype', None)),
         precomputed_stats={'path': inp.stats},
         drop_level=None,
         query_markers={'serialized_lookup': inp.markers},
